@@ -130,14 +130,31 @@ FunctorManager::Env FunctorManager::createEnv(Context& caller, unsigned id, cons
     _ctx->recursion(r + 1);
     _ctx->trace(caller.trace());
     _ctx->returnCondition(false);
+    /* local variables start every call unset, as in a new runtime context */
+    const Context * proto = entry.functor->ctx;
+    for (size_t n = 0; n < _ctx->_storage_pool.size() && n < proto->_storage_pool.size(); ++n)
+    {
+      Context::MemorySlot& slot = _ctx->_storage_pool[n];
+      *slot.symbol = *(proto->_storage_pool[n].symbol);
+      slot.value = Value(static_cast<const Type&>(*slot.symbol));
+    }
   }
 
   assert(entry.functor->params.size() == pvals.size());
 
   /* bind parameter values ​​to variables for all symbols */
-  unsigned i = 0;
-  for (const Symbol& symbol : entry.functor->params)
-    VariableExpression(symbol).store(*_ctx, caller, pvals[i++]);
+  try
+  {
+    unsigned i = 0;
+    for (const Symbol& symbol : entry.functor->params)
+      VariableExpression(symbol).store(*_ctx, caller, pvals[i++]);
+  }
+  catch (...)
+  {
+    /* the evaluation of an argument failed: the context isn't lost */
+    delete _ctx;
+    throw;
+  }
 
   return Env(entry, _ctx);
 }
